@@ -41,7 +41,10 @@ impl ScanlineIntersections {
         // Special case: If thick strokes completely fill the triangle interior and the stroke is
         // inside the triangle, the normal triangle shape can be used to detect the intersection,
         // with the line type being marked as Border so, when rendered, the correct color is used.
-        let is_collapsed = triangle.is_collapsed(stroke_width, stroke_offset)
+        //
+        // A stroke with a width of zero never covers the interior.
+        let is_collapsed = stroke_width > 0
+            && triangle.is_collapsed(stroke_width, stroke_offset)
             && stroke_offset == StrokeOffset::Right;
 
         let mut self_ = Self {
